@@ -181,6 +181,19 @@ def check_against_plan(bp: dict, plan_obj, res: dict) -> None:
                     if not pc.get("second_signal") and pc.get("second_constant") is not None and ec.get("constant", 0) != pc["second_constant"]:
                         raise Violation("planned-config-missing", {"what": "condition constant", "planned": pc["second_constant"],
                                                                    "emitted": ec.get("constant", 0), "where": where})
+                    # the row's network selection (latches read the input on red, their own output on green)
+                    for key in ("first", "second"):
+                        wires = pc.get(f"{key}_signal_wires")
+                        if pc.get(f"{key}_signal") and wires and set(wires) != {"red", "green"}:
+                            nets = ec.get(f"{key}_signal_networks") or {}
+                            got = {c for c in ("red", "green") if nets.get(c, True)}
+                            if got != set(wires):
+                                raise Violation("planned-config-missing", {
+                                    "what": f"condition row {key} network selection", "planned": sorted(wires),
+                                    "emitted": sorted(got), "where": where})
+                    if (pc.get("compare_type") or "or") != (ec.get("compare_type") or "or") and pc is not planned[0]:
+                        raise Violation("planned-config-missing", {"what": "row compare type", "planned": pc.get("compare_type"),
+                                                                   "emitted": ec.get("compare_type"), "where": where})
                 probe(res, "multi_condition_config_checked")
             else:
                 if len(conds) != 1:
@@ -197,6 +210,15 @@ def check_against_plan(bp: dict, plan_obj, res: dict) -> None:
                 elif isinstance(right, int) and isinstance(left, str) and ec.get("constant", 0) != right:
                     raise Violation("planned-config-missing", {"what": "condition constant", "planned": right,
                                                                "emitted": ec.get("constant", 0), "where": where})
+                for side, key in (("left", "first"), ("right", "second")):
+                    wires = props.get(f"{side}_operand_wires")
+                    if isinstance(props.get(f"{side}_operand"), str) and wires and set(wires) != {"red", "green"}:
+                        nets = ec.get(f"{key}_signal_networks") or {}
+                        got = {c for c in ("red", "green") if nets.get(c, True)}
+                        if got != set(wires):
+                            raise Violation("planned-config-missing", {
+                                "what": f"condition {key} operand network selection", "planned": sorted(wires),
+                                "emitted": sorted(got), "where": where})
             if len(outs) != 1:
                 raise Violation("planned-config-missing", {"what": "output row", "emitted": len(outs), "where": where})
             o = outs[0]
